@@ -132,7 +132,48 @@ pub fn gen_sort_case(rng: &mut Rng, tier: Tier) -> SortCase {
 }
 
 pub fn gen_c07(rng: &mut Rng, tier: Tier) -> Case {
-    Case::Sort(gen_sort_case(rng, tier))
+    let mut c = gen_sort_case(rng, tier);
+    if rng.chance(1, 25) {
+        // zero-byte entries at a full buffer: fillers leave fewer than 16 free bytes in a fixed-size
+        // buffer, then only ("", "") follow, so that the spill is triggered by an entry that occupies
+        // no key/value bytes at all and only such entries are pending when the sorter is consumed
+        let thr = *rng.pick(&[64usize, 96, 128, 256, 1024]);
+        c.knobs.raw_threshold = Some(thr);
+        c.knobs.allow_realloc = false;
+        c.knobs.init_cap = None;
+        c.knobs.creator = 0;
+        let cap = (thr + 15) / 16 * 16;
+        let mut ins = Vec::new();
+        let mut free = cap;
+        let mut id = 0u32;
+        let rounds = rng.urange(1, 3);
+        for _ in 0..rounds {
+            while free >= 16 + 6 + 16 {
+                let pad = rng.urange(0, (free - 16 - 6 - 16).min(20));
+                let key = vec![1u8 + (id % 3) as u8; rng.urange(1, 3)];
+                free -= 16 + key.len() + 6 + pad;
+                ins.push((B(key), B(gen::record(id, pad))));
+                id += 1;
+            }
+            // one entry that leaves 0..=15 free bytes
+            if free >= 16 + 6 + 1 {
+                let want_free = rng.urange(0, 15);
+                let room = free - 16 - 1; // key of one byte
+                let vlen = room.saturating_sub(want_free).max(6);
+                if vlen >= 6 && 16 + 1 + vlen <= free {
+                    ins.push((B(vec![9u8]), B(gen::record(id, vlen - 6))));
+                    id += 1;
+                }
+            }
+            for _ in 0..rng.urange(1, 4) {
+                ins.push((B(Vec::new()), B(Vec::new())));
+            }
+            free = cap - 16; // after the spill only the ("","") that triggered it is buffered
+        }
+        c.inserts = Entries::Literal(ins);
+        c.alt_knobs.clear();
+    }
+    Case::Sort(c)
 }
 
 /// Collects the sorter's output from a transcript. For consume == 3 returns the per-chunk lists.
@@ -405,6 +446,13 @@ pub fn gen_c08_with(rng: &mut Rng, tier: Tier, real_scale: bool) -> Case {
     let mut vol = 0u64;
     let mut i = 0u32;
     let style = rng.below(3);
+    if rng.chance(1, 10) {
+        // a buffer filled with nothing but zero-byte entries, then ordinary ones
+        let fill = (b as usize).max(16) * 2 / 16 + rng.urange(0, 40);
+        for _ in 0..fill.min(20_000) {
+            inserts.push((B(Vec::new()), B(Vec::new())));
+        }
+    }
     let pool_n = rng.urange(1, 200);
     let pool = gen::gen_keys(rng, pool_n, gen::KeyClass::Counter, 1024);
     while vol < target && inserts.len() < 60_000 {
@@ -498,8 +546,17 @@ pub fn check_c08(case: &Case, st: &mut Stats) -> Verdict {
             ),
         );
     }
-    if e.max_live_chunks > max_chunks + 2 {
-        return viol("C08", "live-chunks", format!("{} chunks were alive at once; maximum configured {} (+2)", e.max_live_chunks, max_chunks));
+    // After a component failure the statement promises nothing; the family that keeps inserting
+    // after a rejected insert judges the chunk bound with one extra chunk per failure, because a
+    // chunk merge that fails (its output cannot be created) legitimately leaves its inputs in place
+    // until the next merge - measured on the unchanged tree: max_nb_chunks = 1 peaks at 4 once.
+    let slack = fired.len() as i64;
+    if e.max_live_chunks > max_chunks + 2 + slack {
+        return viol(
+            "C08",
+            "live-chunks",
+            format!("{} chunks were alive at once; maximum configured {} (+2{})", e.max_live_chunks, max_chunks, if slack > 0 { format!(", +{} after {} failed component call(s)", slack, slack) } else { String::new() }),
+        );
     }
     let accounted: u64 = e.create_windows.iter().sum::<u64>() + e.window_volume;
     if faulty {
